@@ -136,6 +136,8 @@ pub enum Stmt {
     Include(String),
     /// `{% block name %}..{% endblock %}`
     Block { name: String, body: Vec<Stmt> },
+    /// `{{ super() }}` (inside a block body of a template that extends)
+    Super,
 }
 
 pub fn text(s: &str) -> Stmt {
@@ -161,7 +163,8 @@ fn write_body(body: &[Stmt], s: &mut String) {
 fn write_stmt(st: &Stmt, s: &mut String) {
     match st {
         Stmt::Text(t) => {
-            debug_assert!(!t.contains("{{") && !t.contains("{%") && !t.contains("{#"));
+            // no character that could form a delimiter together with a neighbouring tag
+            assert!(!t.contains(['{', '}', '%', '#']), "generator bug: text {t:?} may form a delimiter");
             s.push_str(t)
         }
         Stmt::Print(e) => {
@@ -238,6 +241,7 @@ fn write_stmt(st: &Stmt, s: &mut String) {
             write_body(body, s);
             s.push_str("{% endblock %}");
         }
+        Stmt::Super => s.push_str("{{ super() }}"),
     }
 }
 
@@ -251,6 +255,32 @@ pub struct Template {
 impl Template {
     pub fn new(name: &str, body: Vec<Stmt>) -> Template {
         Template { name: name.to_string(), extends: None, body }
+    }
+    /// The pair (`name` extends `base_name`, base) that renders `pre` `inherited` BODY `post`:
+    /// the base is `pre{% block blk %}inherited{% endblock %}post`, the child overrides the block
+    /// with `{{ super() }}BODY`.
+    pub fn extending(name: &str, base_name: &str, blk: &str, pre: &str, inherited: &str, post: &str, body: Vec<Stmt>) -> [Template; 2] {
+        let mut child_body = vec![Stmt::Super];
+        child_body.extend(body);
+        let mut base = vec![];
+        if !pre.is_empty() {
+            base.push(text(pre));
+        }
+        base.push(Stmt::Block {
+            name: blk.to_string(),
+            body: if inherited.is_empty() { vec![] } else { vec![text(inherited)] },
+        });
+        if !post.is_empty() {
+            base.push(text(post));
+        }
+        [
+            Template {
+                name: name.to_string(),
+                extends: Some(base_name.to_string()),
+                body: vec![Stmt::Block { name: blk.to_string(), body: child_body }],
+            },
+            Template::new(base_name, base),
+        ]
     }
     pub fn source(&self) -> String {
         let mut s = String::new();
@@ -759,34 +789,55 @@ pub mod fam {
         }
     }
 
-    /// The three fixed children of the family (per print mode).
+    /// The three fixed children of the family (per print mode): print a / print, `set a`, print /
+    /// print, `set_global a`, print. In the if-defined spelling they are plain templates; in the
+    /// bare spelling each of them *extends* the base `cb` = `({% block k %}{% endblock %})` and
+    /// does its work inside the overridden block (same text).
     pub fn f3_children(mode: PrintMode) -> Vec<Template> {
-        let sfx = if mode == PrintMode::Bare { "b" } else { "d" };
-        vec![
-            Template::new(&format!("cp{sfx}"), vec![text("("), print_a(mode), text(")")]),
-            Template::new(
-                &format!("cs{sfx}"),
-                vec![
-                    text("("),
-                    print_a(mode),
-                    Stmt::Set { name: "a".into(), value: Expr::str("is"), global: false },
-                    text("/"),
-                    print_var("a"),
-                    text(")"),
-                ],
-            ),
-            Template::new(
-                &format!("cg{sfx}"),
-                vec![
-                    text("("),
-                    print_a(mode),
-                    Stmt::Set { name: "a".into(), value: Expr::str("ig"), global: true },
-                    text("/"),
-                    print_var("a"),
-                    text(")"),
-                ],
-            ),
-        ]
+        let bodies = |mode: PrintMode| {
+            [
+                ("cp", vec![print_a(mode)]),
+                (
+                    "cs",
+                    vec![
+                        print_a(mode),
+                        Stmt::Set { name: "a".into(), value: Expr::str("is"), global: false },
+                        text("/"),
+                        print_var("a"),
+                    ],
+                ),
+                (
+                    "cg",
+                    vec![
+                        print_a(mode),
+                        Stmt::Set { name: "a".into(), value: Expr::str("ig"), global: true },
+                        text("/"),
+                        print_var("a"),
+                    ],
+                ),
+            ]
+        };
+        let mut out = vec![];
+        match mode {
+            PrintMode::IfDefined => {
+                for (n, body) in bodies(mode) {
+                    let mut v = vec![text("(")];
+                    v.extend(body);
+                    v.push(text(")"));
+                    out.push(Template::new(&format!("{n}d"), v));
+                }
+            }
+            PrintMode::Bare => {
+                for (n, body) in bodies(mode) {
+                    let [child, base] = Template::extending(&format!("{n}b"), "cb", "k", "(", "", ")", body);
+                    out.push(child);
+                    if n == "cp" {
+                        out.push(base);
+                    }
+                }
+            }
+        }
+        out
     }
 
     /// Is the sequence well nested (a `close` only when something is open)?
@@ -1136,23 +1187,29 @@ pub mod fam {
         out
     }
 
-    /// Items: (wrapper stack, inside a loop?, body through an include?).
+    /// Items: (wrapper stack, inside a loop?, body inline / through an include / through an
+    /// include of a template that extends and holds the body in an overridden block).
     pub fn f4_items(thorough: bool) -> u64 {
-        wrap_stacks(f4_max_depth(thorough)).len() as u64 * 4
+        wrap_stacks(f4_max_depth(thorough)).len() as u64 * 6
     }
 
     pub fn f4_decode(item: u64, thorough: bool, emit: &mut Emit<'_>) {
         let stacks = wrap_stacks(f4_max_depth(thorough));
-        let stack = &stacks[(item / 4) as usize];
-        let in_loop = item % 4 >= 2;
-        let via_include = item % 2 == 1;
+        let stack = &stacks[(item / 6) as usize];
+        let in_loop = item % 2 == 1;
+        let placement = item / 2 % 3;
         for (body, bindings, btag) in f4_bodies() {
             let mut templates = vec![];
-            let mut cur = if via_include {
-                templates.push(Template::new("body", body));
-                vec![Stmt::Include("body".into())]
-            } else {
-                body
+            let mut cur = match placement {
+                0 => body,
+                1 => {
+                    templates.push(Template::new("body", body));
+                    vec![Stmt::Include("body".into())]
+                }
+                _ => {
+                    templates.extend(Template::extending("body", "bodyb", "k", "e(", "i", ")e", body));
+                    vec![Stmt::Include("body".into())]
+                }
             };
             for (d, w) in stack.iter().enumerate().rev() {
                 cur = wrap(*w, d + 1, cur);
@@ -1176,7 +1233,12 @@ pub mod fam {
             }
             let mut program = Program::single(cur).with_variants();
             program.templates.extend(templates);
-            let tag = format!("{}:{}", stack.iter().map(|w| w.name()).collect::<Vec<_>>().join(">"), btag);
+            let tag = format!(
+                "{}:{}{}",
+                stack.iter().map(|w| w.name()).collect::<Vec<_>>().join(">"),
+                btag,
+                ["", "@include", "@include-extending"][placement as usize]
+            );
             emit(Group { program: &program, bindings: &bindings, tag: &tag });
         }
     }
@@ -1198,8 +1260,10 @@ pub mod fam {
         SetBlock,
         Filter,
         Include,
+        /// include of a template that extends a base and holds the child in an overridden block
+        IncludeExt,
     }
-    pub const CONS: [Con; 12] = [
+    pub const CONS: [Con; 13] = [
         Con::If,
         Con::IfElseThen,
         Con::IfElseElse,
@@ -1212,6 +1276,7 @@ pub mod fam {
         Con::SetBlock,
         Con::Filter,
         Con::Include,
+        Con::IncludeExt,
     ];
     impl Con {
         pub fn name(self) -> &'static str {
@@ -1228,6 +1293,7 @@ pub mod fam {
                 Con::SetBlock => "set-block",
                 Con::Filter => "filter-section",
                 Con::Include => "include",
+                Con::IncludeExt => "include-extending",
             }
         }
         /// The context variables of the construct at `level` and their alternatives.
@@ -1240,7 +1306,7 @@ pub mod fam {
                     vec![(format!("c{level}"), tf.clone()), (format!("d{level}"), tf)]
                 }
                 Con::For | Con::ForElseBody | Con::ForElseElse => vec![(format!("l{level}"), lists)],
-                Con::SetBlock | Con::Filter | Con::Include => vec![],
+                Con::SetBlock | Con::Filter | Con::Include | Con::IncludeExt => vec![],
             }
         }
     }
@@ -1361,6 +1427,19 @@ pub mod fam {
                     extra.push(Template::new(&name, body(0, true, None, &child)));
                     out.push(Stmt::Include(name));
                 }
+                Con::IncludeExt => {
+                    let name = format!("t{d}");
+                    extra.extend(Template::extending(
+                        &name,
+                        &format!("tb{d}"),
+                        &format!("k{d}"),
+                        &format!("y{d}"),
+                        &format!("i{d}"),
+                        &format!("z{d}"),
+                        body(0, true, None, &child),
+                    ));
+                    out.push(Stmt::Include(name));
+                }
             }
             out.push(text(&format!("a{d}")));
             out
@@ -1397,20 +1476,21 @@ pub mod fam {
 
     pub fn f5_items(thorough: bool) -> u64 {
         let max = f5_max_depth(thorough) as u32;
-        (1..=max).map(|k| 12u64.pow(k)).sum()
+        (1..=max).map(|k| (CONS.len() as u64).pow(k)).sum()
     }
 
     pub fn f5_chain(item: u64, thorough: bool) -> Vec<Con> {
         let max = f5_max_depth(thorough) as u32;
         let mut rest = item;
+        let nc = CONS.len() as u64;
         for k in 1..=max {
-            let n = 12u64.pow(k);
+            let n = nc.pow(k);
             if rest < n {
                 let mut chain = vec![];
                 let mut r = rest;
                 for _ in 0..k {
-                    chain.push(CONS[(r % 12) as usize]);
-                    r /= 12;
+                    chain.push(CONS[(r % nc) as usize]);
+                    r /= nc;
                 }
                 chain.reverse();
                 return chain;
@@ -1437,63 +1517,78 @@ pub mod fam {
 
     // ============================================================ include of an extending template
     //
-    // Kept apart from F1..F5: `{% include "c" %}` where `c` has a parent. The documentation says
-    // `include` renders the template; the engine renders only the child's own top-level nodes
-    // (known finding F-include-extends).
+    // `{% include "c" %}` where `c` has a parent: include renders the template, i.e. what
+    // rendering `c` directly gives, against the includer's current variables, leaking nothing.
+    // (Before the repair b2aa72a the engine rendered only the child's own top-level nodes; the
+    // check keeps the signature `include-of-extending-template-renders-only-own-nodes` for that.)
+
+    const INCEXT_MAINS: u64 = 5;
+    const INCEXT_CHILDREN: u64 = 7;
+    const INCEXT_BASES: u64 = 2;
 
     pub fn incext_items(_thorough: bool) -> u64 {
-        4 * 3 * 2
+        INCEXT_MAINS * INCEXT_CHILDREN * INCEXT_BASES
     }
 
     pub fn incext_decode(item: u64, _thorough: bool, emit: &mut Emit<'_>) {
-        let (m, c, bs) = ((item % 4) as usize, (item / 4 % 3) as usize, (item / 12) as usize);
+        let m = item % INCEXT_MAINS;
+        let c = item / INCEXT_MAINS % INCEXT_CHILDREN;
+        let bs = item / (INCEXT_MAINS * INCEXT_CHILDREN);
+        let pa = || Stmt::Print(Expr::default(Expr::var("a"), "u"));
+        let blk = |n: &str, body: Vec<Stmt>| Stmt::Block { name: n.into(), body };
         let base = match bs {
-            0 => vec![text("["), Stmt::Block { name: "x".into(), body: vec![text("base")] }, text("]")],
-            _ => vec![
-                text("["),
-                Stmt::Block { name: "x".into(), body: vec![text("base")] },
-                text("|"),
-                Stmt::Block { name: "y".into(), body: vec![text("basey")] },
-                text("]"),
-            ],
+            0 => vec![text("["), blk("x", vec![text("base")]), text("]")],
+            _ => vec![text("["), blk("x", vec![text("base")]), text("|"), blk("y", vec![text("y:"), pa()]), text("]")],
         };
-        let child_body = match c {
-            0 => vec![Stmt::Block { name: "x".into(), body: vec![text("child")] }],
-            1 => vec![],
-            _ => vec![Stmt::Block {
-                name: "x".into(),
-                body: vec![text("child:"), Stmt::Print(Expr::default(Expr::var("a"), "u"))],
-            }],
-        };
+        let set = |v: &str, global: bool| Stmt::Set { name: "a".into(), value: Expr::str(v), global };
+        let mut templates = vec![];
+        let child = |body: Vec<Stmt>, parent: &str| Template { name: "c".into(), extends: Some(parent.into()), body };
+        match c {
+            0 => templates.push(child(vec![blk("x", vec![text("child")])], "b")),
+            1 => templates.push(child(vec![], "b")),
+            2 => templates.push(child(vec![blk("x", vec![text("child:"), pa()])], "b")),
+            3 => templates.push(child(vec![blk("x", vec![text("<"), Stmt::Super, text(">child")])], "b")),
+            4 => templates.push(child(vec![blk("x", vec![pa(), set("cs", false), text("/"), pa()])], "b")),
+            5 => templates.push(child(vec![blk("x", vec![pa(), set("cg", true), text("/"), pa()])], "b")),
+            _ => {
+                // three levels: c extends m extends b, both overriding x around super()
+                templates.push(child(vec![blk("x", vec![text("top("), Stmt::Super, text(")"), pa()])], "m"));
+                templates.push(Template {
+                    name: "m".into(),
+                    extends: Some("b".into()),
+                    body: vec![blk("x", vec![text("mid("), Stmt::Super, text(")")])],
+                });
+            }
+        }
+        templates.push(Template::new("b", base));
         let inc = Stmt::Include("c".into());
-        let set_a = Stmt::Set { name: "a".into(), value: Expr::str("s"), global: false };
         let main = match m {
-            0 => vec![text("A"), set_a, inc, text("B")],
-            1 => vec![Stmt::For {
-                key: None,
-                var: "a".into(),
-                iter: Expr::Lit(V::Arr(vec![V::I64(1), V::I64(2)])),
-                body: vec![inc, text(";")],
-                else_body: None,
-            }],
+            0 => vec![text("A"), set("s", false), inc, text("B:"), pa()],
+            1 => vec![
+                Stmt::For {
+                    key: None,
+                    var: "a".into(),
+                    iter: Expr::Lit(V::Arr(vec![V::s("l1"), V::s("l2")])),
+                    body: vec![inc, text(";"), pa(), text(";")],
+                    else_body: None,
+                },
+                pa(),
+            ],
             2 => vec![
                 Stmt::SetBlock { name: "v".into(), global: false, filters: vec![], body: vec![text("("), inc, text(")")] },
                 text("<"),
                 print_var("v"),
                 text(">"),
+                pa(),
             ],
-            _ => vec![Stmt::FilterSection { filter: Filter::Upper, body: vec![text("("), inc, text(")")] }],
+            3 => vec![Stmt::FilterSection { filter: Filter::Upper, body: vec![text("("), inc, text(")")] }, pa()],
+            _ => vec![text("A"), inc, text("B:"), pa()],
         };
-        let program = Program {
-            templates: vec![
-                Template::new(MAIN, main),
-                Template { name: "c".into(), extends: Some("b".into()), body: child_body },
-                Template::new("b", base),
-            ],
-            // rendering `c` directly must give the inherited text (sanity of the reference)
-            entries: vec![MAIN.to_string(), "c".to_string()],
-        };
-        let bindings = [Bindings::ctx_only(vec![], "")];
+        let mut program = Program::single(main).with_variants();
+        program.templates.extend(templates);
+        // rendering `c` directly is the control: it must give the inherited text too
+        program.entries.push("c".to_string());
+        let bindings = f3_bindings();
         emit(Group { program: &program, bindings: &bindings, tag: "include-extends" });
     }
 }
